@@ -250,7 +250,7 @@ fn lst_plans(thorough: bool) -> Vec<Plan> {
             // leave LST queued in the pending batch so that an over-sized IBC delivery could succeed
             small_funds(
                 || {
-                    let mut sc = Script { s: f(k), strict: true };
+                    let mut sc = Script { s: f(k), strict: true, dead: false };
                     sc = sc.with(|s| unstake(s, &u(2), 40));
                     sc.done()
                 },
@@ -265,7 +265,8 @@ fn lst_plans(thorough: bool) -> Vec<Plan> {
                 ("rate_up_queued", q(seed_rate_up, &k)),
                 ("rate_down_queued", q(seed_rate_down, &k)),
                 ("mid_amounts", small_funds(|| seed_mid_amounts(&k), 250)),
-                ("mixed_refundable", small_funds(|| seed_mixed_refundable(&k, seed_two_stakes(&k), false), 250)),
+                ("mixed_refundable", small_funds(|| seed_mixed_refundable(&k, seed_received(&k), false), 250)),
+                ("mixed_refundable_lst_lowest", small_funds(|| seed_mixed_refundable(&k, seed_received(&k), true), 250)),
             ],
         );
         let mut o = MenuOpt::base();
